@@ -1,0 +1,37 @@
+//go:build verif
+
+package integrity
+
+import (
+	"strings"
+
+	"github.com/jdillenkofer/pithos/internal/storage"
+	"github.com/jdillenkofer/pithos/internal/storage/database/repository/part"
+)
+
+// Pure specification functions used by the contracts in zz_contracts_verif.go.
+
+func specOptDiffer(recorded *string, computed *string) bool {
+	return recorded != nil && computed != nil && *recorded != *computed
+}
+
+// specPartMismatch: a recorded part checksum disagrees with the checksum computed from the stored bytes.
+func specPartMismatch(p part.Entity, c storage.ChecksumValues) bool {
+	return (p.ETag != "" && c.ETag != nil && p.ETag != *c.ETag) ||
+		specOptDiffer(p.ChecksumCRC32, c.ChecksumCRC32) || specOptDiffer(p.ChecksumCRC32C, c.ChecksumCRC32C) ||
+		specOptDiffer(p.ChecksumCRC64NVME, c.ChecksumCRC64NVME) || specOptDiffer(p.ChecksumSHA1, c.ChecksumSHA1) ||
+		specOptDiffer(p.ChecksumSHA256, c.ChecksumSHA256)
+}
+
+// specMultipartShaped: ETags of multipart and appended objects carry a "-N" part count (S3), single-part ETags are plain MD5.
+func specMultipartShaped(etag string) bool {
+	return strings.Contains(etag, "-")
+}
+
+// specObjectMismatch: a recorded object checksum disagrees with the expected value.
+func specObjectMismatch(o storage.Object, c storage.ChecksumValues) bool {
+	return (o.ETag != "" && c.ETag != nil && o.ETag != *c.ETag) ||
+		specOptDiffer(o.ChecksumCRC32, c.ChecksumCRC32) || specOptDiffer(o.ChecksumCRC32C, c.ChecksumCRC32C) ||
+		specOptDiffer(o.ChecksumCRC64NVME, c.ChecksumCRC64NVME) || specOptDiffer(o.ChecksumSHA1, c.ChecksumSHA1) ||
+		specOptDiffer(o.ChecksumSHA256, c.ChecksumSHA256)
+}
